@@ -32,7 +32,7 @@ from sexp import Sym
 
 GLOBAL_DT_BASE = 0xba5eda7adef500000000000000000000
 SAME_AS = GLOBAL_DT_BASE + 7
-POPULATED = ['PE_PE', 'EP_PKG', 'C_C', 'S_DT', 'S_CDT', 'S_EDT', 'S_ENUM', 'S_UDT', 'S_SDT',
+POPULATED = ['PE_PE', 'EP_PKG', 'C_C', 'S_DT', 'S_CDT', 'S_EDT', 'S_ENUM', 'S_UDT', 'S_SDT', 'S_IRDT',
              'O_OBJ', 'O_ATTR', 'O_BATTR', 'O_NBATTR', 'O_DBATTR', 'O_RATTR', 'O_REF', 'O_RTIDA', 'O_OIDA', 'O_ID',
              'R_REL', 'R_SIMP', 'R_FORM', 'R_PART', 'R_ASSOC', 'R_AONE', 'R_AOTH', 'R_ASSR', 'R_SUBSUP', 'R_SUPER',
              'R_SUB', 'R_COMP', 'R_OIR', 'R_RGO', 'R_RTO']
@@ -132,6 +132,11 @@ def rows_of(d):
                 prev = eid
         elif kind[0] == 'user':
             rows.append(('S_UDT', [t['id'], kind[1], 0, '']))
+        elif t.get('flavour') == 'irdt' and d['classes']:
+            # an instance reference type (inst_ref<X> / inst_ref_set<X>): S_IRDT, R123 to some class
+            rows.append(('S_IRDT', [t['id'], int(t['name'].startswith('inst_ref_set')), d['classes'][0]['id']]))
+        elif t.get('flavour') == 'none':
+            pass                                    # an S_DT without any R17 subtype row
         else:
             rows.append(('S_SDT', [t['id']]))
     classes = {c['id']: c for c in d['classes']}
@@ -151,7 +156,10 @@ def rows_of(d):
                 rows.append(('O_BATTR', [a['id'], c['id']]))
                 rows.append(('O_DBATTR', [a['id'], c['id'], '', 0, 0]))
             else:
-                rows.append(('O_RATTR', [a['id'], c['id'], kind[2], kind[1], 1, '']))
+                bk = classes.get(kind[1])
+                ba = _find(bk['attrs'], 'id', kind[2]) if bk else None
+                # BaseAttrName: one of the redundant name columns BridgePoint keeps (never read by the extractor)
+                rows.append(('O_RATTR', [a['id'], c['id'], kind[2], kind[1], 1, ba['name'] if ba else '']))
         for i in c['idents']:
             rows.append(('O_ID', [i['num'], c['id']]))
             for a in i['attrs']:
@@ -167,14 +175,23 @@ def rows_of(d):
                 return i['num']
         return 0
 
+    numb_of = {r['id']: r['numb'] for r in d['rels']}
+
+    def cached(rel, rto_cls, iattr):
+        """the redundant name columns BridgePoint keeps on O_REF (RObj_Name, RAttr_Name, Rel_Name); they go stale
+        when the model is edited and must never be read by the extractor"""
+        k = classes.get(rto_cls)
+        a = _find(k['attrs'], 'id', iattr) if k else None
+        return [k['kl'] + ' (class)' if k else '', a['name'] if a else '', 'R%d' % numb_of.get(rel, 0)]
+
     def refs(rel, rgo_cls, rgo_oir, rto_cls, rto_oir, oid, rs):
         seen = set()
         for rattr, iattr in rs:
             if iattr not in seen:
                 seen.add(iattr)
                 rows.append(('O_RTIDA', [iattr, rto_cls, oid, rel, rto_oir]))
-            rows.append(('O_REF', [rgo_cls, rto_cls, oid, iattr, rel, rgo_oir, rto_oir, rattr, new_id(), 0, 0, '',
-                                   '', '', '']))
+            rows.append(('O_REF', [rgo_cls, rto_cls, oid, iattr, rel, rgo_oir, rto_oir, rattr, new_id(), 0, 0, ''] +
+                         cached(rel, rto_cls, iattr)))
 
     for r in d['rels']:
         rid = r['id']
@@ -229,8 +246,8 @@ def rows_of(d):
                     if iattr not in seen:
                         seen.add(iattr)
                         rows.append(('O_RTIDA', [iattr, sup, oid, rid, soir]))
-                    rows.append(('O_REF', [sub, sup, oid, iattr, rid, boir, soir, rattr, new_id(), 0, 0, '',
-                                           '', '', '']))
+                    rows.append(('O_REF', [sub, sup, oid, iattr, rid, boir, soir, rattr, new_id(), 0, 0, ''] +
+                                 cached(rid, sup, iattr)))
         else:
             rows.append(('R_COMP', [rid, '']))
     return rows
@@ -284,6 +301,8 @@ def decode(m):
     cdt = {x.DT_ID: x for x in sel('S_CDT')}
     edt = {x.DT_ID: x for x in sel('S_EDT')}
     udt = {x.DT_ID: x for x in sel('S_UDT')}
+    irdt = {x.DT_ID for x in sel('S_IRDT')}
+    sdt = {x.DT_ID for x in sel('S_SDT')}
     enums = {}
     for e in sel('S_ENUM'):
         enums.setdefault(e.EDT_DT_ID, []).append(e)
@@ -299,6 +318,8 @@ def decode(m):
             kind = ['other']
         d['dts'].append({'id': t.DT_ID, 'name': t.Name, 'kind': kind, 'parent': _parent_of(m, t.DT_ID, pe_by_id),
                          'predef': GLOBAL_DT_BASE <= t.DT_ID < GLOBAL_DT_BASE + 0x100})
+        if kind == ['other']:
+            d['dts'][-1]['flavour'] = 'irdt' if t.DT_ID in irdt else 'sdt' if t.DT_ID in sdt else 'none'
     battr = {(x.Attr_ID, x.Obj_ID) for x in sel('O_BATTR')}
     dbattr = {(x.Attr_ID, x.Obj_ID) for x in sel('O_DBATTR')}
     rattr = {(x.Attr_ID, x.Obj_ID): x for x in sel('O_RATTR')}
@@ -587,6 +608,69 @@ def py_extract(d, comp, drv):
     return [sorted(classes, key=lambda c: c[0]), sorted(groups, key=lambda g: g[0])]
 
 
+def py_sql_text(d, comp, drv):
+    """the text gen_sql_schema.main must write for a diagram whose rows are in modeled order
+    (xtuml.persist_database of the component): per class, sorted by upper-cased key letters, CREATE TABLE and its
+    CREATE UNIQUE INDEX lines; then the CREATE ROP lines, stably sorted by 'R<n>' as text"""
+    out = []
+    scoped = [c for c in d['classes'] if py_in_scope(d, comp, c['parent'])]
+    for c in sorted(scoped, key=lambda c: c['kl'].upper()):
+        cols = []
+        for a in c['attrs']:
+            if a['kind'][0] == 'derived' and not drv:
+                continue
+            dt = py_attr_dt(d, a)
+            ty = py_dt_type(d, dt) if dt is not None else None
+            if ty:
+                cols.append('%s %s' % (a['name'], ty.upper()))
+        out.append('CREATE TABLE %s (\n    %s\n);\n' % (c['kl'], ',\n    '.join(cols)))
+        seen = {}
+        for i in c['idents']:
+            al = [x for x in (_find(c['attrs'], 'id', y) for y in i['attrs']) if x is not None]
+            if not al or (not drv and any(a['kind'][0] == 'derived' for a in al)):
+                continue
+            seen['I%d' % (i['num'] + 1)] = [a['name'] for a in al]       # a dict: a repeated number overwrites
+        for name, names in seen.items():
+            out.append('CREATE UNIQUE INDEX %s ON %s (%s);\n' % (name, c['kl'], ', '.join(names)))
+
+    def cls(i):
+        return _find(d['classes'], 'id', i)
+
+    def end(many, cond, c, keys, phrase):
+        s = '%s%s %s (%s)' % ('M' if many else '1', 'C' if cond else '', c['kl'], ', '.join(keys))
+        return s + (" PHRASE '%s'" % phrase.replace("'", "''") if phrase else '')
+
+    def names(c, ids):
+        return [_find(c['attrs'], 'id', i)['name'] for i in ids]
+
+    rops = []
+
+    def rop(numb, sc, tc, rs, smany, scond, sphrase, tmany, tcond, tphrase):
+        rops.append(('R%d' % numb, 'CREATE ROP REF_ID R%d FROM %s TO %s;\n' % (
+            numb, end(smany, scond, sc, names(sc, [x[0] for x in rs]), sphrase),
+            end(tmany, tcond, tc, names(tc, [x[1] for x in rs]), tphrase))))
+
+    for r in d['rels']:
+        if not py_in_scope(d, comp, r['parent']):
+            continue
+        k = r['kind']
+        if k[0] == 'simple':
+            f, p = k[1], k[2]
+            refl = f[0] == p[0]
+            rop(r['numb'], cls(f[0]), cls(p[0]), k[3], f[1], f[2], p[3] if refl else '', p[1], p[2], f[3] if refl else '')
+        elif k[0] == 'linked':
+            o, t, l = k[1], k[2], cls(k[3])
+            refl = o[0] == t[0]
+            rop(r['numb'], l, cls(o[0]), k[4], t[1], t[2], o[3] if refl else '', False, False, t[3] if refl else '')
+            rop(r['numb'], l, cls(t[0]), k[5], o[1], o[2], t[3] if refl else '', False, False, o[3] if refl else '')
+        elif k[0] == 'subsup':
+            for sub, rs in k[2]:
+                rop(r['numb'], cls(sub), cls(k[1]), rs, False, True, '', False, False, '')
+    for _, line in sorted(rops, key=lambda x: x[0]):
+        out.append(line)
+    return ''.join(out)
+
+
 def py_definable(schema):
     """can every define_class / define_association call for this (canonical) schema succeed: class names distinct
     when upper-cased, both classes of every association defined, every target key an attribute of the target"""
@@ -800,7 +884,7 @@ KLS = ['A', 'B', 'C', 'D', 'E', 'F', 'G', 'H', 'Dog', 'Cat', 'Owner', 'Leash', '
        'Sub1', 'Sub2', 'Sup', 'Link', 'Acct']
 
 
-def gen_diagram(rng, max_classes=5, special_names=False):
+def gen_diagram(rng, max_classes=5, special_names=False, ensure_bare=False, ensure_unsupported=False):
     """a random well-formed class diagram; returns the diagram.  Every identifier is fresh (one counter)."""
     counter = [0]
 
@@ -843,8 +927,12 @@ def gen_diagram(rng, max_classes=5, special_names=False):
         base = rng.choice(d['dts'])
         nm = 'User%d' % i if not (special and rng.random() < 0.5) else rng.choice(special) + 'U%d' % i
         d['dts'].append({'id': nid(), 'name': nm, 'kind': ['user', base['id']], 'parent': some_parent(0.2), 'predef': False})
-    if rng.random() < 0.3:
-        d['dts'].append({'id': nid(), 'name': 'Struct0', 'kind': ['other'], 'parent': some_parent(0.2), 'predef': False})
+    # data types no branch of the code looks at: structured (S_SDT), instance reference (S_IRDT), no subtype row
+    for nm, flavour, p in (('Struct0', 'sdt', 0.3), ('inst_ref<Node>', 'irdt', 0.3), ('inst_ref_set<Node>', 'irdt', 0.15),
+                           ('Bare_dt', 'none', 0.15)):
+        if rng.random() < p or (ensure_unsupported and flavour == 'irdt' and nm == 'inst_ref<Node>'):
+            d['dts'].append({'id': nid(), 'name': nm, 'kind': ['other'], 'flavour': flavour, 'parent': some_parent(0.2),
+                             'predef': False})
     supported = [t for t in d['dts'] if py_dt_type(d, t['id'])]
     unsupported = [t for t in d['dts'] if not py_dt_type(d, t['id'])]
 
@@ -948,6 +1036,27 @@ def gen_diagram(rng, max_classes=5, special_names=False):
             cand = [a for a in c['attrs'] if a['kind'][0] != 'derived' and py_dt_type(d, py_attr_dt(d, a) or 0)]
             if free and cand:
                 c['idents'].append({'num': free[0], 'attrs': [a['id'] for a in rng.sample(cand, min(len(cand), rng.randint(1, 2)))]})
+    # classes without any declarable attribute: no attribute at all, only `current_state`, only derived /
+    # unsupported ones; never referred to, possibly with an identifier over what they have
+    spare = [k for k in KLS if k not in kls]
+    for j in range(2):
+        if rng.random() < 0.25 or (ensure_bare and j == 0):
+            c = {'id': nid(), 'kl': spare[j], 'attrs': [], 'idents': [], 'parent': some_parent(0.1)}
+            shape = rng.choice(['empty', 'state', 'derived', 'unsupported'])
+            if shape == 'state':
+                c['attrs'].append({'id': nid(), 'name': 'current_state', 'kind': ['base', GLOBAL_DT_BASE + 6]})
+            elif shape == 'derived':
+                c['attrs'].append({'id': nid(), 'name': 'total', 'kind': ['derived', rng.choice(supported)['id']]})
+            elif shape == 'unsupported' and unsupported:
+                for x in rng.sample(unsupported, min(len(unsupported), rng.randint(1, 2))):
+                    add_attr(c, ['base', x['id']])
+            if rng.random() < 0.5:
+                c['idents'].append({'num': 0, 'attrs': [a['id'] for a in c['attrs']]})
+            d['classes'].append(c)
+    if ensure_unsupported and d['classes']:
+        irdts = [t for t in d['dts'] if t.get('flavour') == 'irdt']
+        if irdts:
+            add_attr(rng.choice(d['classes']), ['base', rng.choice(irdts)['id']], name='partner')
     # identifiers that are empty or contain derived / unsupported attributes (never referred to)
     for c in d['classes']:
         nums = {x['num'] for x in c['idents']}
